@@ -183,7 +183,7 @@ class S:
         return S(self.k, **f)
 
 
-BINOP_VY = {"Add": "+", "Sub": "-", "Mul": "*", "Div": "//", "Mod": "%", "BAnd": "&", "BOr": "|", "BXor": "^"}
+BINOP_VY = {"Add": "+", "Sub": "-", "Mul": "*", "Div": "//", "Mod": "%", "BAnd": "&", "BOr": "|", "BXor": "^", "Pow": "**"}
 CMP_VY = {"Lt": "<", "Le": "<=", "Gt": ">", "Ge": ">=", "Eq": "==", "Ne": "!="}
 
 
@@ -243,6 +243,8 @@ def e_vy(e):
         return "[" + ", ".join(e_vy(x) for x in e.elems) + "]"
     if k == "pop":
         return f"{base_vy(e.base)}{path_vy(e.path)}.pop()"
+    if k == "shift":
+        return f"({e_vy(e.a)} {'<<' if e.left else '>>'} {e_vy(e.b)})"
     if k == "concat":
         return f"concat({e_vy(e.a)}, {e_vy(e.b)})"
     if k == "slice":
@@ -356,6 +358,8 @@ def e_coq(e):
         return "(EList [" + "; ".join(e_coq(x) for x in e.elems) + "])"
     if k == "pop":
         return f"(EPop ({base_coq(e.base)}) {path_coq(e.path)})"
+    if k == "shift":
+        return f"(EShift {'true' if e.left else 'false'} {ty_coq(e.ty)} {e_coq(e.a)} {e_coq(e.b)})"
     if k == "concat":
         return f"(EConcat {e_coq(e.a)} {e_coq(e.b)})"
     if k == "slice":
